@@ -149,6 +149,11 @@ def add_node_obligations(prop="C13"):
         f = sorted({(d, attrname(s)) for d, s in iterated[fwd]})
         g = sorted({("in" if d == "out" else "out", INVERSE_ATTRS.get(attrname(s))) for d, s in iterated[inv]})
         ok = f == g and all(a is not None for _, a in f)
+        if not f or not g or any(a is None for _, a in f + g):
+            # the edges are not drawn where this obligation reads them (directly in add_node, in a loop over one adjacency attribute): undecided, not violated
+            out.append(OR(id=f"{prop}.S.inverse.{fwd}.{inv}", status=UNKNOWN, kind="S", role="post", backend="ast", target=f"ford.graphs.{inv}.add_node",
+                          detail=f"edge sites of the recognised form: {f} in {fwd}.add_node, {g} in {inv}.add_node"))
+            continue
         out.append(OR(id=f"{prop}.S.inverse.{fwd}.{inv}", status=PROVED if ok else REFUTED, kind="S", role="post", backend="ast", target=f"ford.graphs.{inv}.add_node",
                       desc=f"{inv}.add_node walks exactly the inverse adjacency of {fwd}.add_node with the edge direction flipped ({f} vs {g})"))
     return out
